@@ -11,6 +11,7 @@
   for: that is what `ValidName` of the result with `lsCi` labels says.
 -/
 import DnsModel.Lemmas.CompressRun
+import DnsModel.Tie.Reader
 import DnsModel.Lemmas.PlainBridge
 import DnsModel.Lemmas.CiTrans
 import DnsModel.Theorems.C05
@@ -315,4 +316,17 @@ open Dns
 /-! non-vacuity (kernel evaluation of the model): the expanded sample of C05 compresses back to the
 original sample, with the answer's owner name replaced by a pointer to the question -/
 example : compress C05.okExpanded = .ok C02.okPacket := by decide +kernel
+
+/-! ### Tie to the current source text
+The readers and the case-insensitive comparison of the suffix dictionary (`Compress::raw_name_len`, `raw_name_len_after_decompression`, `copy_uncompressed_name`,
+`SuffixDict::raw_names_eq_ignore_case`) are re-translated from /repo/src/compress.rs by rs2lean.py on every run
+(`Generated/TrReader.lean`) and proved equal to the model functions used above (`Tie/Reader.lean`). -/
+theorem source_reader_tie (p pre n1 n2 : Bytes) (off : Nat) :
+    Tr.Reader.raw_name_len p = rawNameLen p ∧
+    Tr.Reader.raw_name_len_after_decompression p off = rawNameLenAfterDecompression p off ∧
+    Tr.Reader.copy_uncompressed_name pre p off
+      = (copyUncompressedName p off >>= fun r => Res.ok ((r.1.length, r.2), pre ++ r.1)) ∧
+    Tr.Reader.raw_names_eq_ignore_case n1 n2 = .ok (rawNamesEqIgnoreCase n1 n2) :=
+  Tie.reader_tie p pre n1 n2 off
+
 end Dns.C06
